@@ -1,4 +1,7 @@
 mod input_replay;
+mod obs;
+mod scen;
+mod val;
 mod rw;
 mod util;
 
@@ -10,6 +13,28 @@ fn main() {
     let num = |i: usize, d: u64| args.get(i).and_then(|s| s.parse::<u64>().ok()).unwrap_or(d);
     match cmd {
         "input-replay" => input_replay::run(&arg(2), num(3, 6) as usize, num(4, 2_000_000)),
+        "record-obs" => scen::record(&arg(2), &arg(3), num(4, 50)),
+        "gen-dump" => {
+            // self-test of the generators/encoders: id, fmt, hex, expected tree
+            let n = num(2, 100);
+            let seed = util::seed_from_env();
+            for i in 0..n {
+                let mut rng = util::Rng::derive(seed, "gen-dump", i);
+                for fmt in ["json", "yaml", "toml", "msgpack"] {
+                    let v = match fmt {
+                        "toml" => val::gen_toml_doc(&mut rng),
+                        "json" => val::gen_value(&mut rng, &val::GenOpts::streaming(), 0),
+                        "yaml" => val::gen_value(&mut rng, &val::GenOpts { nonfinite: true, ..val::GenOpts::streaming() }, 0),
+                        _ => val::gen_value(&mut rng, &val::GenOpts { nonfinite: true, bin: true, nonstring_keys: true, ..val::GenOpts::streaming() }, 0),
+                    };
+                    for sp in [0u64, i * 7 + 1, i * 7 + 2] {
+                        if let Some(b) = val::encode(&v, fmt, val::Spell { seed: sp }) {
+                            println!("{}", serde_json::json!({"id": format!("{i}/{fmt}/{sp}"), "fmt": fmt, "hex": util::hex(&b), "tree": v.tree()}));
+                        }
+                    }
+                }
+            }
+        }
         _ => {
             eprintln!("usage: xtv <subcommand> ...");
             std::process::exit(2);
